@@ -275,7 +275,6 @@ void Ruleset__prerun(Ruleset *self, OomdContext context)
   __CPROVER_loop_invariant(__begin2.i <= __begin2.n && __begin2.n == self->action_group_.n && __end2.i == __begin2.n && g_prerun_act == __begin2.i) \
   __CPROVER_decreases(__begin2.n - __begin2.i)
 
-#define HAVOC(v) do { __typeof__(v) __h; v = __h; } while (0)
 #define HAVOC_GHOST() do { HAVOC(g_ctx_action); HAVOC(g_ctx_invoking); HAVOC(g_ctx_rscg); HAVOC(g_dg_next); HAVOC(g_first_fired); \
   HAVOC(g_first_action); HAVOC(g_chain_first); HAVOC(g_action_runs); HAVOC(g_last_ret); HAVOC(g_plugin_paused); HAVOC(g_plugin_until); HAVOC(g_now_calls); \
   HAVOC(g_now_hist0); HAVOC(g_now_hist1); HAVOC(g_uuid_calls); HAVOC(g_last_uuid); \
